@@ -38,8 +38,11 @@ def rand_steps(rng, names, goal_n):
         form = rng.choice("CUA") if nxt == len(names) else rng.choice("CU")
         if form == "C":
             steps.append((("C", nxt - pos), rng.choice([1, 1, 2, 4])))
-        elif form == "U":
+        elif form == "U" and names.count(names[nxt - 1]) == 1:
+            # (a name the series lists twice does not say which entry is meant: such a goal is spelled as a count)
             steps.append((("U", names[nxt - 1]), rng.choice([1, 1, 2, 4])))
+        elif form == "U":
+            steps.append((("C", nxt - pos), rng.choice([1, 1, 2, 4])))
         else:
             steps.append((("A",), rng.choice([1, 1, 2, 4])))
         pos = nxt
@@ -193,7 +196,15 @@ def corpus():
     w5 = {"files": {b"g": (b"keep\n", 0o644)}, "dirs": [b"d"], "applied": None, "series": b"p1.patch\np2.patch\n",
           "patches": {b"p1.patch": b"--- /dev/null\n+++ b/d/x\n@@ -0,0 +1 @@\n+hello\n",
                       b"p2.patch": b"--- a/d/x\n+++ /dev/null\n@@ -1 +0,0 @@\n-hello\n"}}
-    return [(w5, dict(base), [(("C", 1), 1), (("A",), 1)]),
+    # seeded C09-j: one patch file listed twice (the second time reversed); the next invocation must go on behind the
+    # number of applied entries, not behind the first entry that carries the last applied name
+    w6 = {"files": {b"f": (b"a\nb\n", 0o644), b"g": (b"1\n2\n", 0o644), b"h": (b"x\ny\n", 0o644)}, "dirs": [], "applied": None,
+          "series": b"a.patch\nb.patch\na.patch -R\nc.patch\n",
+          "patches": {b"a.patch": b"--- a/f\n+++ b/f\n@@ -1,2 +1,2 @@\n-a\n+A\n b\n",
+                      b"b.patch": b"--- a/g\n+++ b/g\n@@ -1,2 +1,2 @@\n 1\n-2\n+two\n",
+                      b"c.patch": b"--- a/h\n+++ b/h\n@@ -1,2 +1,2 @@\n-x\n+X\n y\n"}}
+    return [(w6, dict(base), [(("C", 3), 1), (("A",), 1)]), (w6, dict(base), [(("C", 1), 1), (("C", 2), 2), (("A",), 1)]),
+            (w5, dict(base), [(("C", 1), 1), (("A",), 1)]),
             (w4, dict(base), [(("C", 1), 1), (("A",), 1)]),
             (w, dict(base), [(("C", 1), 1), (("A",), 1)]), (w2, dict(base), [(("C", 1), 1), (("A",), 1)]),
             (w3, dict(base), [(("C", 1), 1), (("A",), 1)])]
@@ -220,6 +231,17 @@ def run(ctx):
             names = l3common.series_names(w)
             if len(names) < 2:
                 continue
+            if rng.random() < 0.15:
+                # an entry listed a second time, reversed (whether it applies there or not: one push and split pushes
+                # must still agree); applied-patches then holds one name twice
+                sl = [l for l in w["series"].split(b"\n") if l.strip() and not l.startswith(b"#")]
+                k = rng.randrange(len(sl))
+                j = rng.randint(k + 1, len(sl))
+                sl.insert(j, sl[k].split()[0] + b" -R" if b"-R" not in sl[k] and b"--reverse" not in sl[k] else sl[k].split()[0])
+                w = dict(w)
+                w["series"] = b"\n".join(sl) + b"\n"
+                names = l3common.series_names(w)
+                hist["a patch listed twice in the series"] += 1
             cfg = l3common.rand_cfg(rng)
             steps = rand_steps(rng, names, len(names))
         from props.C06 import file_patches
